@@ -29,7 +29,9 @@ Record obs := Obs {
 }.
 
 Inductive case :=
-| CHist (h : addr) (accts : list addr) (dens : list denom) (g : genesis) (o0 : obs) (steps : list (op * obs)).
+| CHist (h : addr) (accts : list addr) (dens : list denom) (g : genesis) (o0 : obs) (steps : list (op * obs))
+  (* the real InitGenesis refused (panicked on) the genesis; nothing was written *)
+| CGenRefused (h : addr) (g : genesis).
 
 (** ** Reading an observation *)
 Definition obal (o : obs) (a : addr) (d : denom) : Z :=
@@ -289,21 +291,34 @@ Definition check_prop (h : addr) accts dens xf (f : pframe) : list string :=
 Definition check_payout (f : pframe) : list string :=
   prop_payout (pf_led f) (pf_prev f) (pf_op f) (pf_obs f).
 
+(* the genesis' own statement of "the holder covers the imported records", on the inputs alone: every
+   record has a sender and, per denom of a record, the records add up to at most what the bank says
+   the holder has *)
+Definition gen_covered (h : addr) (g : genesis) : bool :=
+  forallb (fun e : addr * list addr * coins * bool => match snd (fst (fst e)) with [] => false | _ => true end) (g_funds g) &&
+  forallb (fun d => fold_right (fun e acc => amt (snd (fst e)) d + acc) 0 (g_funds g) <=? bal_of_list (g_bal g) h d)
+          (flat_map (fun e : addr * list addr * coins * bool => denoms (snd (fst e))) (g_funds g)).
+
+Definition at_genesis (e : list string) : list string := map (fun t => String.append t " @genesis") e.
+
 Definition check (c : case) : list string :=
   match c with
   | CHist h accts dens g o0 steps =>
-      match init_genesis g with
-      | None => ["corr:genesis_rejected_by_model"]
+      let pfs := pscan (ledger0 o0) o0 steps in
+      (* the property's checker needs no model: it also runs when the model refuses the genesis *)
+      let props := first_failure (check_prop h accts dens (g_xfer g)) 0 pfs ++ first_failure check_payout 0 pfs in
+      let gprop := tag (gen_covered h g) "prop:genesis_accepted_although_holder_does_not_cover_records" ++ prop_state h dens o0 in
+      match init_genesis h g with
+      | None => "corr:genesis_rejected_by_model" :: at_genesis gprop ++ props
       | Some s0 =>
-          match corr_state accts dens s0 o0 ++ prop_state h dens o0 with
-          | [] =>
-              let pfs := pscan (ledger0 o0) o0 steps in
-              first_failure (check_corr accts dens) 0 (scan h s0 steps) ++
-              first_failure (check_prop h accts dens (g_xfer g)) 0 pfs ++
-              first_failure check_payout 0 pfs
-          | e => map (fun t => String.append t " @genesis") e
+          match corr_state accts dens s0 o0 ++ gprop with
+          | [] => first_failure (check_corr accts dens) 0 (scan h s0 steps) ++ props
+          | e => at_genesis e
           end
       end
+  | CGenRefused h g =>
+      tag (match init_genesis h g with None => true | Some _ => false end) "corr:genesis_refused_by_implementation" ++
+      tag (negb (gen_covered h g)) "prop:covered_genesis_refused"
   end.
 
 Definition check_all := check_list check.
